@@ -44,7 +44,21 @@ def table(D, E):
         for ha, hb in itertools.product((False, True), repeat=2):
             C("isequal", dict(t="maybe", has=ha, val=nd(sa)), dict(t="maybe", has=hb, val=nd(sa)), "maybe_maybe")
             C("isequal", dict(t="maybe", has=ha, val=nd(sa)), dict(t="maybe", has=hb, val=nd(sa, 0)), "maybe_maybe")
+            C("isclose", dict(t="maybe", has=ha, val=nd(sa)), dict(t="maybe", has=hb, val=nd(sa)), "maybe_maybe", eps4=2)
+            C("isclose", dict(t="maybe", has=ha, val=nd(sa)), dict(t="maybe", has=hb, val=nd(sa, 0, 3)), "maybe_maybe", eps4=2)
+            # the same through apply_isequal / apply_isclose (default eps 1e-6: on quarters, close iff equal, i.e. eps4 = 1)
+            for op, e4 in (("isequal", {}), ("isclose", dict(eps4=1))):
+                C(op, dict(t="maybe", has=ha, val=nd(sa)), dict(t="maybe", has=hb, val=nd(sa)), "maybe_maybe", apply=True, **e4)
+                C(op, dict(t="maybe", has=ha, val=nd(sa)), dict(t="maybe", has=hb, val=nd(sa, 0)), "maybe_maybe", apply=True, **e4)
         for sb in S[:6]:
+            for op, e4 in (("isequal", {}), ("isclose", dict(eps4=1))):
+                C(op, nd(sa), nd(sb), "dyn_dyn", apply=True, **e4)
+                C(op, dict(t="tuple", items=[nd(sa), nd(sb)]), dict(t="tuple", items=[nd(sa), nd(sb)]), "tuple", apply=True, **e4)
+                C(op, dict(t="tuple", items=[nd(sa), nd(sb)]), dict(t="tuple", items=[nd(sa), nd(sb, 0)]), "tuple", apply=True, **e4)
+                C(op, dict(t="tuple", items=[nd(sa), nd(sb)]), dict(t="tuple", items=[nd(sa), nd(sb)]), "list", apply=True, **e4)
+                C(op, dict(t="tuple", items=[nd(sa), nd(sb)]), dict(t="tuple", items=[nd(sa), nd(sb, 0)]), "list", apply=True, **e4)
+                C(op, dict(t="tuple", items=[nd(sa), nd(sb)]), dict(t="tuple", items=[nd(sa)]), "list", apply=True, **e4)
+                C(op, dict(t="tuple", items=[nd(sa)]), dict(t="tuple", items=[nd(sa), nd(sb)]), "list", apply=True, **e4)
             C("isequal", dict(t="tuple", items=[nd(sa), nd(sb)]), dict(t="tuple", items=[nd(sa), nd(sb)]), "tuple")
             C("isequal", dict(t="tuple", items=[nd(sa), nd(sb)]), dict(t="tuple", items=[nd(sa), nd(sb, 0)]), "tuple")
             C("isequal", dict(t="tuple", items=[nd(sa), nd(sb)]), dict(t="tuple", items=[nd(sb), nd(sa)]), "tuple")
